@@ -44,6 +44,11 @@ pub fn record(args: &[String]) {
         let (raw, panic) = run_chain::<B32, f32, _>(DiffableGaussian2D::<f32>::new(mean, cov), vec![1.0, 1.0], delta, sd + 1, &[(10, w.min(500)), (4, 3)], None);
         let own = OwnN::Gauss2Lib { mean: [mean[0] as f64, mean[1] as f64], cov: [[cov[0][0] as f64, cov[0][1] as f64], [cov[1][0] as f64, cov[1][1] as f64]] };
         push_chain(&mut out, &format!("gauss2lib/f32 warmup={w}"), delta as f32 as f64, &raw, &own, 5e-4, false, &mut stats, panic);
+        // first call ends INSIDE its warm-up, later calls have shorter / no warm-up (the boundary transition is never visited)
+        if w >= 3 {
+            let (raw, panic) = run_chain::<B64, f64, _>(GaussP { prec: vec![vec![1.0, 0.0], vec![0.0, 1.0]] }, vec![0.5, -0.3], delta, sd + 4, &[(1, w.min(60)), (9, 0), (4, w.min(60) / 2)], None);
+            push_chain(&mut out, &format!("stdgauss/f64 interrupted warmup={}", w.min(60)), delta, &raw, &OwnN::GaussP { prec: vec![vec![1.0, 0.0], vec![0.0, 1.0]] }, 1e-7, false, &mut stats, panic);
+        }
         if w <= 50 {
             let (raw, panic) = run_chain::<B64, f64, _>(Rosenbrock2D::<f64> { a: 1.0, b: 10.0 }, vec![0.2, 0.1], delta, sd + 2, &[(8, w), (3, w + 5)], None);
             push_chain(&mut out, &format!("rosen2/f64 warmup={w}"), delta, &raw, &OwnN::Rosen2 { a: 1.0, b: 10.0 }, 1e-7, false, &mut stats, panic);
